@@ -11,14 +11,82 @@ CVC5_TIMEOUT_S = int(os.environ.get("PYVC_CVC5_S", "10"))
 CVC5 = "/usr/bin/cvc5"
 
 
-def to_smt2(ob, goal=None, extra=()):
+def to_smt2(ob, goal=None, extra=(), hyps=None):
     s = z3.Solver()
-    for h in ob.hyps:
+    for h in (ob.hyps if hyps is None else hyps):
         s.add(h)
     for h in extra:
         s.add(h)
     s.add(z3.Not(ob.goal if goal is None else goal))
     return s.to_smt2()
+
+
+_HEAPISH = ("h0_", "h_", "hv_llen", "hv_lel", "hv_smem", "hv_dhas", "hv_dval", "hv_f_", "alloc", "galloc",
+            "len!", "lo!", "arr!", "has!", "val!")
+
+
+def _syms(e, acc, seen):
+    i = e.get_id()
+    if i in seen:
+        return
+    seen.add(i)
+    if z3.is_quantifier(e):
+        _syms(e.body(), acc, seen)
+        return
+    if z3.is_app(e):
+        d = e.decl()
+        if d.kind() == z3.Z3_OP_UNINTERPRETED:
+            n = d.name()
+            if not n.startswith(_HEAPISH) and not n.startswith("b_"):
+                acc.add(n)
+        for c in e.children():
+            _syms(c, acc, seen)
+
+
+def prune_hyps(hyps, goal, extra):
+    """relevance filter (dropping hypotheses is sound): keep every quantifier-free hypothesis and every quantified
+    one whose own non-heap symbols all occur in the goal's cone; returns None when nothing would be dropped"""
+    cone = set()
+    _syms(goal, cone, set())
+    for e in extra:
+        _syms(e, cone, set())
+    info = []
+    for h in hyps:
+        a = set()
+        _syms(h, a, set())
+        info.append((h, a, _has_quant(h)))
+    kept = [h for h, a, q in info if (not q) or (not a) or a <= cone]
+    if len(kept) == len(hyps):
+        return None
+    return kept
+
+
+def prune_ghost(hyps, goal, extra):
+    """second relevance filter: a goal that mentions no ghost symbol is first tried without the hypotheses that do"""
+    cone = set()
+    _syms(goal, cone, set())
+    for e in extra:
+        _syms(e, cone, set())
+    if any("g_" in n for n in cone):
+        return None
+    kept = []
+    for h in hyps:
+        a = set()
+        _syms(h, a, set())
+        if not any("g_" in n for n in a):
+            kept.append(h)
+    return kept if len(kept) < len(hyps) else None
+
+
+def _has_quant(e, seen=None):
+    seen = seen if seen is not None else set()
+    i = e.get_id()
+    if i in seen:
+        return False
+    seen.add(i)
+    if z3.is_quantifier(e):
+        return True
+    return any(_has_quant(c, seen) for c in e.children())
 
 
 def split_goal(g, depth=0):
@@ -75,6 +143,20 @@ def _solve(job):
                 "detail": "", "seconds": time.time() - t0}
     t0 = time.time()
     out = {"name": name, "backend": "z3", "result": "unknown", "detail": ""}
+    if isinstance(smt2, list):
+        for fast in smt2[:-1]:
+            # relevance-pruned queries first (only `unsat` counts there)
+            try:
+                s = z3.Solver()
+                s.set("timeout", max(3000, z3_ms // 3))
+                s.from_string(fast)
+                if s.check() == z3.unsat:
+                    out.update({"result": "unsat", "backend": "z3", "detail": "relevance-pruned hypotheses",
+                                "seconds": time.time() - t0})
+                    return out
+            except Exception:      # noqa
+                pass
+        smt2 = smt2[-1]
     try:
         for attempt, params in enumerate(({}, {"smt.mbqi": False}, {"smt.ematching": True, "smt.mbqi": True,
                                                                       "smt.random_seed": 7})):
@@ -197,11 +279,19 @@ def discharge(obls, procs=None, z3_ms=None, use_cvc5=True):
         parts = split_goal(ob.goal)
         for i, (extra, sg) in enumerate(parts):
             nm = ob.name if len(parts) == 1 else "%s#%d" % (ob.name, i)
-            jobs.append((nm, to_smt2(ob, sg, extra), z3_ms, use_cvc5, False))
+            texts = []
+            pr = prune_hyps(ob.hyps, sg, extra)
+            if pr is not None:
+                texts.append(to_smt2(ob, sg, extra, pr))      # fast path: relevant hypotheses only
+            pg = prune_ghost(ob.hyps, sg, extra)
+            if pg is not None:
+                texts.append(to_smt2(ob, sg, extra, pg))      # fast path: without ghost-only facts
+            texts.append(to_smt2(ob, sg, extra))
+            jobs.append((nm, texts, z3_ms, use_cvc5, False))
             by_name[nm] = (ob, len(parts))
         ob._parts = []
     if jobs:
-        hard = (z3_ms * 5) // 3000 + CVC5_TIMEOUT_S + 10
+        hard = (z3_ms * 7) // 3000 + CVC5_TIMEOUT_S + 10
         results = _run_jobs(jobs, procs, hard)
         for r in results:
             ob, nparts = by_name[r["name"]]
